@@ -53,9 +53,9 @@ CFG = {
         rule="distinct scenarios whose run completed with >=1 poll and >=1 search step (every target/constraint call and the final log judged)",
     ),
     "C02": dict(
-        profile=dict(name="c02", cons_p=1.0, x0_w=[8, 1, 1, 0], x0_infeasible_p=0.1, x0_nearcons_p=0.12, x0_infeasible_near_p=0.12,
+        profile=dict(name="c02", cons_p=1.0,  x0_w=[8, 1, 1, 0], x0_infeasible_p=0.1, x0_nearcons_p=0.12, x0_infeasible_near_p=0.12,
                      geom_w=[3, 3, 2, 3, 3, 1, 1, 1, 3], where_w=[3, 2, 2, 3, 1], noise_w=[4, 1, 2, 2],
-                     knobs=dict(n_search=0.5)),
+                     knobs=dict(n_search=0.5, force_poll_mesh=0.25)),
         n=dict(quick=128, thorough=4000),
         nontrivial=lambda r: (r["outcome"] == "completed" and r["n_polls"] >= 1 and r["n_calls"] >= 5) or
                              (r["outcome"] == "ctor_valueerror"),
@@ -120,7 +120,7 @@ CFG = {
         rule="distinct scenarios completed with >=2 local GP fits and >=2 acquisition evaluations, all judged",
     ),
     "C17": dict(
-        profile=dict(name="c17", where_w=[2, 1, 4, 4, 1], noise_w=[7, 1, 1, 1], cons_p=0.35, fam_w=[5, 2, 2, 1, 3, 1, 2],
+        profile=dict(name="c17", where_w=[2, 1, 4, 4, 1], noise_w=[7, 1, 1, 1], cons_p=0.45, knobs=dict(force_poll_mesh=0.3), fam_w=[5, 2, 2, 1, 3, 1, 2],
                      geom_w=[3, 3, 3, 2, 2, 1, 2, 1, 3]),
         n=dict(quick=128, thorough=4000),
         nontrivial=lambda r: r["outcome"] == "completed" and r["filter_calls"] >= 3,
